@@ -131,6 +131,7 @@ type VC struct {
 	ghost     map[string]*Term // ghost witness values
 	usedContracts map[string]bool
 	constOf   map[string]string
+	iteLit    map[string][3]string // phi name -> (condition, literal, literal)
 	ghostOut  Tuple
 	ghostRange map[string][2]string
 	paramConsts []string
@@ -140,7 +141,7 @@ func newVC(eng *Engine, fn *ssa.Function, c *Contract) *VC {
 	vc := &VC{eng: eng, root: fn, contract: c, constSort: map[string]string{}, declared: map[string]bool{},
 		anon: map[string]int{}, lits: map[string]string{}, heapSort: map[string]string{}, heapType: map[string]types.Type{},
 		oblCount: map[string]int{}, trusted: map[string]bool{}, havoced: map[string]bool{}, inlined: map[string]bool{},
-		typeTags: map[string]int{}, globalIds: map[*ssa.Global]int{}, written: map[string]bool{}, ghost: map[string]*Term{}, usedContracts: map[string]bool{}, constOf: map[string]string{}}
+		typeTags: map[string]int{}, globalIds: map[*ssa.Global]int{}, written: map[string]bool{}, ghost: map[string]*Term{}, usedContracts: map[string]bool{}, constOf: map[string]string{}, iteLit: map[string][3]string{}}
 	vc.ghostRange = map[string][2]string{}
 	vc.mode = "int"
 	pkg := ""
@@ -669,6 +670,16 @@ func (vc *VC) mergeVal(conds []string, vals []Val) (Val, bool) {
 		n := vc.fresh("phi")
 		vc.declare(n, f.Sort)
 		vc.assume("(= " + n + " " + s + ")")
+		if len(vals) == 2 && vc.mode != "bv" {
+			// a choice between two literals (e.g. xor := 0 / 0xff): remembered so
+			// that bit operations with it can be encoded exactly per alternative
+			a, b := vals[0].(*Term), vals[1].(*Term)
+			if _, ok := vc.litVal(a.S); ok {
+				if _, ok := vc.litVal(b.S); ok {
+					vc.iteLit[n] = [3]string{conds[0], a.S, b.S}
+				}
+			}
+		}
 		return &Term{n, f.Sort, f.T}, true
 	case Tuple:
 		out := make(Tuple, len(f))
